@@ -388,7 +388,10 @@ class Ctx:
             "coverage": cov, "assumptions": self.assumptions, "wall_s": round(wall, 2),
             "violations": len(self.violations),
         }
-        with open(os.path.join(VERIF, "evidence", "%s.json" % self.pid), "w") as f:
+        # runs against a deliberately broken tree (tools/try_mutant.sh) must not overwrite the evidence of the unchanged tree
+        evdir = os.environ.get("VERIF_EVIDENCE_DIR") or os.path.join(VERIF, "evidence")
+        os.makedirs(evdir, exist_ok=True)
+        with open(os.path.join(evdir, "%s.json" % self.pid), "w") as f:
             json.dump(ev, f, indent=1, default=str)
         print("[%s %s seed=%d] %s: evaluations=%d distinct_nontrivial=%d inconclusive_cases=%d wall=%.1fs observed=%s"
               % (self.pid, self.tier, self.seed, status, self.evaluations, len(self.nontrivial), self.inconclusive_cases, wall,
